@@ -307,18 +307,18 @@ def splittings(n, bounds, rnd, thorough):
         res.append((tuple(range(1, n)), both))
     near = sorted({p for b in [0] + bounds for p in (b - 1, b, b + 1, b + 2, b + 3) if 0 < p < n})
     more = []
-    if n <= (10 if thorough else 6):
+    if n <= (8 if thorough else 6):
         more = [c for k in range(2, n) for c in itertools.combinations(range(1, n), k)]
     else:
         pairs = list(itertools.combinations(near, 2))
-        more = pairs if thorough or len(pairs) <= 12 else rnd.sample(pairs, 12)
+        more = pairs if len(pairs) <= (45 if thorough else 12) else rnd.sample(pairs, 45 if thorough else 12)
         if thorough:
             tri = list(itertools.combinations(near, 3))
-            more += tri if len(tri) <= 40 else rnd.sample(tri, 40)
-        for _ in range(6 if thorough else 2):
+            more += tri if len(tri) <= 15 else rnd.sample(tri, 15)
+        for _ in range(4 if thorough else 2):
             k = rnd.randint(2, max(2, n // 2))
             more.append(tuple(sorted(rnd.sample(range(1, n), min(k, n - 1)))))
-    res += [(c, both if thorough else (rnd.random() < 0.5,)) for c in more]
+    res += [(c, (rnd.random() < 0.5,)) for c in more]
     seen, out = set(), []
     for c, l in res:
         if c not in seen:
@@ -330,10 +330,10 @@ def splittings(n, bounds, rnd, thorough):
 def enc_placements(nd, enc_len, rnd, thorough):
     """Where the encoder stream goes among nd deliveries of the request stream:
     (position of the last piece, position of an earlier first piece or None, cut)."""
-    if nd <= 2 or thorough:
+    if nd <= (4 if thorough else 2):
         pos = list(range(nd + 1))
     else:
-        pos = sorted(set(rnd.sample([0, nd, rnd.randint(1, nd - 1)], 2)))
+        pos = sorted(set(rnd.sample([0, nd] + [rnd.randint(1, nd - 1) for _ in range(2 if thorough else 1)], 3 if thorough else 2)))
     res = [(p, None, 0) for p in pos]
     if enc_len > 1 and (thorough or rnd.random() < 0.3):
         p = rnd.choice(pos)
@@ -456,6 +456,10 @@ class HeaderGen:
                 hl.append((rnd.choice(self.sticky)[0], rand_value(rnd)))        # known name, new value
             else:
                 hl.append((b"x-" + rand_token(rnd, 1, 12, NAME_CH.replace(b"-", b"")), rand_value(rnd)))
+        # pylsqpack encodes a field section into a fixed 4 kB buffer (lsqpack_enc_encode fails beyond):
+        # keep the list below 3000 bytes, pseudo-headers and huffman expansion leave ample room
+        while sum(len(n) + len(v) + 4 for n, v in hl) > 3000:
+            hl.remove(max(hl, key=lambda h: len(h[1])))
         if body_len is not None and rnd.random() < 0.4:
             hl.insert(rnd.randint(0, len(hl)), (b"content-length", b"%d" % body_len))
         return hl
@@ -821,8 +825,10 @@ def r_signature(clause, lib, header, tag, ln, canon, statement=True):
     descs = header["descs"]
     facts = []
     if clause.endswith("end-of-stream") or clause == "model:truncated-end":
-        facts.append("last-frame=" + FRAME_CLASS[descs[-1]["k"]])
-        facts.append("ends=%d/canonical=%d" % (ends_of(ln["obs"], 0), ends_of(canon["obs"], 0)))
+        # the request stream whose end-of-stream reports differ (0, or the interleaved second stream 4)
+        sid = 4 if header["second"] and ends_of(ln["obs"], 0) == ends_of(canon["obs"], 0) else 0
+        facts.append("last-frame=" + FRAME_CLASS[(header["second"] if sid == 4 else descs)[-1]["k"]])
+        facts.append("ends=%d/canonical=%d" % (ends_of(ln["obs"], sid), ends_of(canon["obs"], sid)))
         if header["trunc"]:
             facts.append("frame-cut-by-fin")
     elif clause.endswith("connection-closed") or clause == "model:closed":
@@ -849,17 +855,17 @@ def v_signature(clause, group, ln):
 
 
 # ------------------------------------------------------------------------ main
-def m_config(plan):
-    return ("SPECIFICATION Spec\nCONSTANT Plan <- %s\nCONSTANT EnumSet = \"none\"\n"
-            "INVARIANT ChunkingIndependent\nINVARIANT Sane\n" % plan)
+def m_config(plan, shipped=False):
+    return ("SPECIFICATION Spec\nCONSTANT Plan <- %s\nCONSTANT EnumSet = \"none\"\nCONSTANT Shipped = %s\n"
+            "INVARIANT ChunkingIndependent\nINVARIANT Sane\n" % (plan, "TRUE" if shipped else "FALSE"))
 
 
-TRACE_CONST = 'CONSTANT Plan <- PlanTrace\nCONSTANT EnumSet = "none"'
+TRACE_CONST = 'CONSTANT Plan <- PlanTrace\nCONSTANT EnumSet = "none"\nCONSTANT Shipped = FALSE'
 
 
 def judge(check, lines, name, shards=None):
     if shards is None:
-        shards = max(1, min(8, len(lines) // 4000))      # a JVM start costs as much as judging a few thousand lines
+        shards = max(1, min(8 if check.quick else 16, len(lines) // 4000))      # a JVM start costs as much as judging a few thousand lines
     fails = trace.validate(check, "TraceH3", [strip(ln) for ln in lines], constants=TRACE_CONST, name=name,
                            group_key=lambda ln: ln["back"] == 0, shards=shards)
     check.cov["traces_validated_against_impl"] += len(lines)
@@ -882,11 +888,11 @@ def run_r(check, rnd, seqs, thorough, only=None):
     for n, codes in enumerate(seqs):
         descs = decode_seq(codes)
         plans = [(True, None, 0)]
-        if thorough or n % 3 == 0:
+        if n % (2 if thorough else 3) == 0:
             plans.append((False, None, 0))
-        if len(descs) <= 2 and (thorough or n % 5 == 0):
+        if len(descs) <= 2 and n % (3 if thorough else 5) == 0:
             plans.append((True, second, 0))
-        if descs[-1]["k"] in ("D", "H", "U", "P") and (thorough or n % 7 == 0):
+        if descs[-1]["k"] in ("D", "H", "U", "P") and n % (4 if thorough else 7) == 0:
             plans.append((True, None, 1))                 # FIN cuts the last frame: outside the statement
         for client, sec, trunc in plans:
             if only is not None and (client, sec is not None, trunc) != only:
@@ -953,7 +959,7 @@ def report_v(check, groups, fails):
 
 
 def enumerate_seqs(check, which):
-    cfg = 'SPECIFICATION EnumSpec\nCONSTANT Plan <- PlanNone\nCONSTANT EnumSet = "%s"\n' % which
+    cfg = 'SPECIFICATION EnumSpec\nCONSTANT Plan <- PlanNone\nCONSTANT EnumSet = "%s"\nCONSTANT Shipped = FALSE\n' % which
     r = check.run_tlc("H3Stream", cfg, name="H3Stream_enum", workers=1)
     seqs = []
     for p in r.prints:
@@ -971,12 +977,24 @@ def replay(check):
     if detail.get("kind") == "model":
         raise MachineryError("replay of a design-level counterexample: run the check itself, the TLC trace is in the replay file")
     if detail["kind"] == "R":
-        rnd = random.Random(seed)
-        only = (detail["client"], detail["second"], detail["trunc"])
-        lines, index = run_r(check, rnd, [tuple(detail["codes"])], d["tier"] == "thorough", only=only)
+        # the recorded run itself (same bytes, same deliveries) next to its canonical run, then the whole case again
+        lib = Library(detail["client"])
+        descs = decode_seq(detail["codes"])
+        second = decode_seq([3001, 1020]) if detail["second"] else None
+        header, runs = r_case_runs(lib, descs, random.Random(seed), d["tier"] == "thorough", second, detail["trunc"])
+        offs, ds = {}, []
+        for sid, n, fin in detail["sched"]:
+            data = header["streams"][sid][0]
+            ds.append((sid, data[offs.get(sid, 0):offs.get(sid, 0) + n], fin))
+            offs[sid] = offs.get(sid, 0) + n
+        runs = [runs[0], (dict(detail["tag"], recorded=True), ds)] + runs[1:]
+        lines = r_lines(lib, header, runs)
+        index = [(lib, header, runs[i][0], 0) for i in range(len(lines))]
         fails = judge(check, lines, "replay")
         report_r(check, lines, index, fails)
-        check.sample({"replayed_case": detail["codes"], "runs": len(lines)})
+        check.count(("R-replay", tuple(detail["codes"])), nontrivial=True, evaluations=len(lines))
+        check.sample({"replayed_case": detail["frames"], "runs": len(lines), "recorded_run": detail["sched"],
+                      "recorded_run_events_now": lines[1]["obs"], "closed_now": lines[1]["closed"]})
     else:
         check.seed = seed
         big = d["tier"] == "thorough"
@@ -1008,7 +1026,7 @@ def run(check):
     by_len = {}
     for q in seqs:
         by_len.setdefault(len(q), []).append(q)
-    quota = {1: 10 ** 9, 2: 10 ** 9, 3: 2500, 4: 1500} if thorough else {1: 10 ** 9, 2: 160, 3: 200}
+    quota = {1: 10 ** 9, 2: 10 ** 9, 3: 350, 4: 100} if thorough else {1: 10 ** 9, 2: 120, 3: 130}
     seqs = [q for n in sorted(by_len) for q in (by_len[n] if len(by_len[n]) <= quota.get(n, 0) else rnd.sample(by_len[n], quota.get(n, 0)))]
     lines, index = run_r(check, rnd, seqs, thorough)
     fails = judge(check, lines, "TraceH3_R")
@@ -1034,6 +1052,13 @@ def run(check):
     pool.shutdown()
     if r.violated:
         check.model_violation(r, "H3Stream")
+    if thorough:
+        # the theorem must tell the design from the two departures of the shipped code it was written against
+        probe = check.run_tlc("H3Stream", m_config("PlanProbe", shipped=True), name="H3Stream_M_probe_shipped", workers=4)
+        check.cov["M_probe"] = {"variant": "Shipped = TRUE (blocked PUSH_PROMISE resumed as HEADERS; no end of stream after a frame "
+                                           "without end flag)", "tlc_finds_counterexample": probe.violated}
+        if probe.violated != "ChunkingIndependent":
+            raise MachineryError("the theorem of H3Stream no longer discriminates: the as-shipped variant passes")
 
     check.cov["exhaustive"] = False
     check.cov["rule"] = ("(M) every frame sequence with 1- and 2-byte varints up to L bytes per stream x every splitting x every "
